@@ -335,6 +335,12 @@ def execute(scenario, chooser):
            'steps': sim.steps, 'faults': {}, 'probes': probes,
            'deviations': list(sim.deviations), 'harness_error': None,
            'shape': ','.join(_route_of(r['path']) for r in sc['requests'])}
+    res['faults'] = {
+        'stop_request': sum(1 for r in sc['requests']
+                            if r['path'].startswith('/stop')),
+        'hostile_or_unlisted_request': sum(
+            1 for r in sc['requests'] if _route_of(r['path']) == '404'),
+        'thread_preemption': sim.switches}
     if out.status == 'deadlock':
         violation('hang', world.fmt_stacks(out.stacks))
         return res
